@@ -2,6 +2,7 @@ package props
 
 import (
 	"fmt"
+	"go/constant"
 	"go/token"
 	"go/types"
 	"regexp"
@@ -26,6 +27,7 @@ func runC05Gaps2(c *eng.Ctx) {
 	c05RestoreLegs(c)
 	c05RevocationHandOver(c)
 	c05ForgetAfterDelete(c)
+	c05RootBoundByMergedMax(c)
 	c05Timer(c)
 	c05RegisterRollback(c)
 }
@@ -914,4 +916,170 @@ func c05ForgetAfterDelete(c *eng.Ctx) {
 		}
 	}
 	c.CallerTable("untracking of a lease (removeFromPending, Delete/Clear on pending / nonexpiring / irrevocable)", sites, allowed, 8)
+}
+
+// ---------- C05.15 a created token is bounded by the MERGED explicit maximum
+//
+// parseAndMergeTTLPeriod returns the explicit maximum and the period that apply
+// to the new token: the lesser of the call's and the role's (the merge itself
+// is C05.10 / C07.9). handleCreateCommon must bound the token by THOSE results
+// everywhere: what it hands to CalculateTTL, what it falls back to for a token
+// that skips CalculateTTL (a root token without ttl / period: the fallback is the
+// only thing that bounds it), and what it advertises in the Auth that renewals
+// are later capped by. te.ExplicitMaxTTL holds the call's own value only (seed
+// C05-g read it in the fallback: a root token created through a role with
+// token_explicit_max_ttl then never expires).
+//
+// Sites are selected by resolved callee and result index, stores and tests by
+// field identity (TokenEntry.TTL of the entry handed to ts.create,
+// Auth.ExplicitMaxTTL / Auth.Period).
+func c05RootBoundByMergedMax(c *eng.Ctx) {
+	f := c.Fn("vault.(*TokenStore).handleCreateCommon")
+	if f == nil {
+		return
+	}
+	const mergePat = `^vault\.\(\*TokenStore\)\.parseAndMergeTTLPeriod$`
+	const mergedMax = `^call:vault\.\(\*TokenStore\)\.parseAndMergeTTLPeriod#0$`
+	const mergedPeriod = `^call:vault\.\(\*TokenStore\)\.parseAndMergeTTLPeriod#1$`
+	ttlField := c.P.Field("logical.TokenEntry.TTL")
+	authMax := c.P.Field("logical.Auth.ExplicitMaxTTL")
+	authPeriod := c.P.Field("logical.Auth.Period")
+	if ttlField == nil || authMax == nil || authPeriod == nil {
+		c.Unresolved("logical.TokenEntry.TTL / logical.Auth.ExplicitMaxTTL / logical.Auth.Period")
+		return
+	}
+	c.Clause("R5", "C05.15")
+	merges := c18Plain(c18Calls(f, mergePat))
+	creates := c18Plain(c18Calls(f, `^vault\.\(\*TokenStore\)\.create$`))
+	if !c.Floor(f, "parseAndMergeTTLPeriod call", len(merges), 1) || !c.Floor(f, "TokenStore.create call", len(creates), 1) {
+		return
+	}
+	if !merges[0].Self() {
+		c.Undecided(f, "merged explicit maximum", merges[0].At.Pos(), "parseAndMergeTTLPeriod is not called by handleCreateCommon itself: which results are the merged maximum and period is not followed; the rule cannot be evaluated")
+		return
+	}
+	merge := merges[0].At.(ssa.CallInstruction)
+	// the entry that is created
+	entry, _ := c18Val(creates[0].Effs[0].Call.Args[2], creates[0].Effs[0].Fr)
+	sameField := func(a *ssa.FieldAddr, fv *types.Var) bool {
+		g := eng.FieldVar(a)
+		return g != nil && (g == fv || g.Origin() == fv)
+	}
+	isEntryTTL := func(addr ssa.Value) bool {
+		fa, ok := addr.(*ssa.FieldAddr)
+		if !ok || !sameField(fa, ttlField) {
+			return false
+		}
+		base, _ := c18Val(fa.X, nil)
+		return base == entry
+	}
+	// (a) what handleCreateCommon writes into the entry's TTL
+	var ttlStores []ssa.Instruction
+	for _, in := range eng.Instrs(f, func(in ssa.Instruction) bool { st, ok := in.(*ssa.Store); return ok && isEntryTTL(st.Addr) }) {
+		st := in.(*ssa.Store)
+		ttlStores = append(ttlStores, st)
+		c18Prov(c, f, "TTL given to the created token", st, st.Val, nil, `^call:framework\.CalculateTTL#0$`, mergedMax)
+	}
+	c.Floor(f, "stores to the TTL of the entry that is created (CalculateTTL's result, the merged explicit maximum)", len(ttlStores), 2)
+	// (b) what CalculateTTL is bounded by
+	calcs := c18Calls(f, `^framework\.CalculateTTL$`)
+	if c.Floor(f, "CalculateTTL call", len(calcs), 1) {
+		for _, ct := range calcs {
+			for _, e := range ct.Effs {
+				if len(e.Call.Args) < 7 {
+					continue
+				}
+				c18Prov(c, f, "explicit maximum given to CalculateTTL", ct.At, e.Call.Args[5], e.Fr, mergedMax)
+				c18Prov(c, f, "period given to CalculateTTL", ct.At, e.Call.Args[3], e.Fr, mergedPeriod)
+			}
+		}
+	}
+	// (c) what the Auth of the new token advertises (renewals are capped by it)
+	nAuth := 0
+	for _, in := range eng.Instrs(f, func(in ssa.Instruction) bool { _, ok := in.(*ssa.Store); return ok }) {
+		st := in.(*ssa.Store)
+		fa, ok := st.Addr.(*ssa.FieldAddr)
+		if !ok {
+			continue
+		}
+		switch {
+		case sameField(fa, authMax):
+			nAuth++
+			c18Prov(c, f, "explicit maximum of the new token's Auth", st, st.Val, nil, mergedMax)
+		case sameField(fa, authPeriod):
+			nAuth++
+			c18Prov(c, f, "period of the new token's Auth", st, st.Val, nil, mergedPeriod)
+		}
+	}
+	c.Floor(f, "Auth.ExplicitMaxTTL / Auth.Period of the new token", nAuth, 2)
+
+	// (d) a token whose TTL is still zero is created only when the merged maximum is zero too:
+	// on the paths on which every test of the entry's TTL says "zero" and the merged
+	// maximum is positive, ts.create is not reached without a TTL having been written
+	c.Clause("R2", "C05.15")
+	site := "a token with TTL 0 is created only when the merged explicit maximum is 0"
+	asm := map[string]bool{}
+	nZero, nMerged := 0, 0
+	m0 := eng.ResultValue(merge, 0)
+	for _, b := range f.Blocks {
+		ifi := eng.IfOf(b)
+		if ifi == nil {
+			continue
+		}
+		nc := eng.Normalize(ifi.Cond)
+		bo, ok := nc.Val.(*ssa.BinOp)
+		if !ok {
+			continue
+		}
+		isZeroConst := func(v ssa.Value) bool {
+			k, ok := v.(*ssa.Const)
+			return ok && k.Value != nil && k.Value.Kind() == constant.Int && constant.Sign(k.Value) == 0
+		}
+		isTTLLoad := func(v ssa.Value) bool {
+			ld, ok := v.(*ssa.UnOp)
+			return ok && ld.Op == token.MUL && isEntryTTL(ld.X)
+		}
+		for _, pair := range [][2]ssa.Value{{bo.X, bo.Y}, {bo.Y, bo.X}} {
+			x, k := pair[0], pair[1]
+			if !isZeroConst(k) {
+				continue
+			}
+			subjectTTL, subjectMerged := isTTLLoad(x), m0 != nil && x == m0
+			if !subjectTTL && !subjectMerged {
+				continue
+			}
+			// value of the normalised condition when the subject is 0 (TTL) / positive (merged maximum)
+			var val bool
+			switch {
+			case strings.HasSuffix(nc.Base, " == 0"):
+				val = subjectTTL // x == 0
+			case strings.HasPrefix(nc.Base, "0 < "):
+				val = subjectMerged // 0 < x
+			case strings.HasSuffix(nc.Base, " < 0"):
+				val = false // never, for a duration that is 0 or positive
+			default:
+				continue
+			}
+			asm["^"+regexp.QuoteMeta(nc.Base)+"$"] = val
+			if subjectTTL {
+				nZero++
+			} else {
+				nMerged++
+			}
+		}
+	}
+	if !c.Floor(f, "tests of the created entry's TTL against zero", nZero, 2) || !c.Floor(f, "test of the merged explicit maximum against zero", nMerged, 1) {
+		return
+	}
+	var bounded []ssa.Instruction
+	for _, st := range ttlStores {
+		if ok, _, _ := c18OriginsMatch(st.(*ssa.Store).Val, nil, `^call:framework\.CalculateTTL#0$`, mergedMax); ok {
+			bounded = append(bounded, st)
+		}
+	}
+	if h := eng.Reach(eng.Query{Fn: f, StartAfter: merge, Assume: asm, Barriers: bounded, Target: eng.IsTarget(c18Ats(creates))}); h != nil {
+		c.Violation(f, site, h.Instr.Pos(), "with a positive merged explicit maximum (the lesser of the call's and the role's) a token whose TTL is 0 can reach TokenStore.create without the merged maximum (or CalculateTTL's result) having been written to its TTL: it is registered as non-expiring", h.Witness)
+	} else {
+		c.OK(f, site, creates[0].At.Pos(), "with merged maximum > 0 and TTL == 0 every path to TokenStore.create writes CalculateTTL's result or the merged maximum into the TTL")
+	}
 }
